@@ -5,7 +5,7 @@ import os
 
 V = os.path.dirname(os.path.dirname(os.path.abspath(__file__)))
 
-FIXES = ['da09844 fix: loop iterations are ordered numerically, not as strings', '57a5672 fix: multi-line key-output descriptions keep output.txt parsable', 'c40342c fix: output.txt is converted to JSON without configparser interpolation', 'e963c27 fix: error description read back from status.txt keeps its outer whitespace', '0d4bbfc fix: Status.writeToStream escapes a copy of the error description', '5cdb903 fix: status_details.json is not replaced by a partially written temporary file', 'e4f1411 fix: instance description and manifest are replaced atomically', 'd84b6cf fix: user variable files are layered in the order given', '89bfe12 fix: resubmission cap also applies when SubmissionFailed is listed in restartHookOn', '0c051f0 fix: a component receives exactly one final state', '9e3a59a fix: controller ignores a POSTMORTEM notification whose engine is alive again', '98a674a fix: ComponentState publishes snapshots of its state, not the live dictionary', 'd4798f8 fix: repeating engine that never launched observes its finished producers once', 'd4a57bc fix: repeating engine honours kill-after-producers-done-delay between executions']
+FIXES = ['3621346 fix: state of a DoWhile document follows its own condition component', 'da09844 fix: loop iterations are ordered numerically, not as strings', '57a5672 fix: multi-line key-output descriptions keep output.txt parsable', 'c40342c fix: output.txt is converted to JSON without configparser interpolation', 'e963c27 fix: error description read back from status.txt keeps its outer whitespace', '0d4bbfc fix: Status.writeToStream escapes a copy of the error description', '5cdb903 fix: status_details.json is not replaced by a partially written temporary file', 'e4f1411 fix: instance description and manifest are replaced atomically', 'd84b6cf fix: user variable files are layered in the order given', '89bfe12 fix: resubmission cap also applies when SubmissionFailed is listed in restartHookOn', '0c051f0 fix: a component receives exactly one final state', '9e3a59a fix: controller ignores a POSTMORTEM notification whose engine is alive again', '98a674a fix: ComponentState publishes snapshots of its state, not the live dictionary', 'd4798f8 fix: repeating engine that never launched observes its finished producers once', 'd4a57bc fix: repeating engine honours kill-after-producers-done-delay between executions']
 
 E1_NOTE = ("trusted base: sim/kernel.py (baton-passing scheduler, virtual clock) faithfully replaces threading/time/"
            "datetime/ThreadPoolExecutor; the scripted SimTask stands for every backend; pre-emption at synchronisation "
@@ -81,7 +81,10 @@ CHECKS['C05'] = dict(check='c05', also=['c05rt'], engine='E2-history-restart-sim
                      text='generated DoWhile packages driven through k (up to 25, always crossing 10 in a share of runs) real '
                           'instantiate_dowhile_next_iteration calls with seeded crash+reload points; after every step node set, '
                           'predecessors of every loop instance, placeholder represents/latest, loop state and resolve() of :ref, '
-                          ':output, :loopref, :loopoutput references from outside the loop equal the reference unroller.',
+                          ':output, :loopref, :loopoutput references from outside the loop equal the reference unroller. 30 % of the '
+                          'packages hold a second DoWhile document (same names in other stages, the same file imported twice, or '
+                          'suffixed names in shared stages) iterated in a seeded interleaving; the controller path (c05rt) runs the '
+                          'same packages, two loops included, under the real Controller on the kernel.',
                      note=E2_NOTE)
 CHECKS['C07'] = dict(check='c07', engine='E2-history-restart-sim', category='exploration', design='§3 C07',
                      technique='deterministic simulation of store/reload histories (restart with only durable state), before/after equality + load-store fixpoint',
